@@ -6,6 +6,6 @@ P=$1; W=$2; TIER=${3:-quick}; shift 3 2>/dev/null
 export GOFLAGS=-mod=mod GOPROXY=off GOSUMDB=off GOTOOLCHAIN=local
 mkdir -p /tmp/mut
 ( cd $W && git checkout -q -- . && git apply MUTANT/patch.diff ) || { echo "patch does not apply"; exit 2; }
-N=$(basename $W)
+N=$(basename $(dirname $W))-$(basename $W)
 cd /verif && VERIF_REPO=$W timeout 3600 bin/check $P --tier $TIER "$@" > /tmp/mut/$N.$P.$TIER.log 2>&1; RC=$?
 echo "exit=$RC"; grep -h "VIOLATION\|violation in\|INCONCLUSIVE\|KNOWN-FINDING\|tier=" /tmp/mut/$N.$P.$TIER.log | cut -c1-420
